@@ -257,6 +257,79 @@ theorem step_effect (cfg : List (RunC κ)) (H : Harness) (stop : Option Nat) (s 
           simp only [if_true]
           split <;> simp
 
+/-- the process starts of one `execute_run`: builds, then at most the next unrecorded invocation of that run -/
+theorem step_trace (cfg : List (RunC κ)) (H : Harness) (stop : Option Nat) (s : St κ β) (i : Nat) (c : RunC κ)
+    (hc : cfg[i]? = some c) (s' : St κ β) (res : StepRes)
+    (hstep : step benchOf cfg H stop s i = (s', res)) :
+    ∃ evs, s'.trace = s.trace ++ evs ∧
+      ∀ e ∈ evs, (∃ b, e = .build b) ∨ e = .start i ((s.runs.getD i dfltRun).m + 1) := by
+  unfold step at hstep
+  simp only [hc] at hstep
+  generalize hrs : s.runs.getD i dfltRun = rs at hstep ⊢
+  by_cases ht : terminated c rs = true
+  · simp only [ht, if_true, Prod.mk.injEq] at hstep
+    obtain ⟨rfl, rfl⟩ := hstep
+    exact ⟨[], by simp, by simp⟩
+  · simp only [ht, Bool.false_eq_true, if_false] at hstep
+    have hdb : ∀ (bs : List Nat) (s0 : St κ β), ∃ evs, (doBuilds H stop bs s0).1.trace = s0.trace ++ evs ∧
+        ∀ e ∈ evs, ∃ b, e = Ev.build b := by
+      intro bs
+      induction bs with
+      | nil => intro s0; exact ⟨[], by simp [doBuilds], by simp⟩
+      | cons b bs ih =>
+        intro s0
+        unfold doBuilds
+        cases s0.builds.lookup b with
+        | some ok => cases ok
+                     · exact ⟨[], by simp, by simp⟩
+                     · exact ih s0
+        | none =>
+          simp only
+          split
+          · exact ⟨[.build b], rfl, by simp⟩
+          · split
+            · obtain ⟨evs, h1, h2⟩ := ih { s0 with trace := s0.trace ++ [Ev.build b], builds := (b, true) :: s0.builds }
+              refine ⟨.build b :: evs, by simp [h1], ?_⟩
+              intro e he
+              rcases List.mem_cons.mp he with rfl | he
+              · exact ⟨b, rfl⟩
+              · exact h2 e he
+            · exact ⟨[.build b], rfl, by simp⟩
+    obtain ⟨evs, d4, d5⟩ := hdb c.builds s
+    generalize hdbr : doBuilds H stop c.builds s = db at d4 hstep
+    obtain ⟨s1, br⟩ := db
+    simp only at d4
+    have hb : ∀ e ∈ evs, (∃ b, e = Ev.build b) ∨ e = Ev.start i (rs.m + 1) := fun e he => .inl (d5 e he)
+    have hb2 : ∀ e ∈ evs ++ [Ev.start i (rs.m + 1)], (∃ b, e = Ev.build b) ∨ e = Ev.start i (rs.m + 1) := by
+      intro e he
+      rcases List.mem_append.mp he with h | h
+      · exact hb e h
+      · simp at h; exact .inr h
+    cases br with
+    | interrupted =>
+      simp only [Prod.mk.injEq] at hstep
+      obtain ⟨rfl, rfl⟩ := hstep
+      exact ⟨evs, d4, hb⟩
+    | failed =>
+      simp only [Prod.mk.injEq] at hstep
+      obtain ⟨rfl, rfl⟩ := hstep
+      exact ⟨evs, by simp [setRun, d4], hb⟩
+    | ok =>
+      simp only at hstep
+      split at hstep
+      · simp only [Prod.mk.injEq] at hstep
+        obtain ⟨rfl, rfl⟩ := hstep
+        exact ⟨evs ++ [.start i (rs.m + 1)], by simp [d4], hb2⟩
+      · cases hout : H.out i (rs.m + 1) with
+        | none =>
+          simp only [hout, Prod.mk.injEq] at hstep
+          obtain ⟨rfl, _⟩ := hstep
+          exact ⟨evs ++ [.start i (rs.m + 1)], by simp [setRun, d4], hb2⟩
+        | some dps =>
+          simp only [hout, Prod.mk.injEq] at hstep
+          obtain ⟨rfl, _⟩ := hstep
+          exact ⟨evs ++ [.start i (rs.m + 1)], by simp [setRun, d4], hb2⟩
+
 /-! ### file contents as a function of the recorded invocations -/
 
 omit [DecidableEq κ] in
